@@ -122,17 +122,53 @@ class _DigitLoop:
     """for (i = size-1; i >= 0 && !cmp; --i) cmp = digits1[i] - digits2[i];
     invariant: all positions above i+1 hold equal digits; cmp is zero, or the difference at position i+1 (non-zero)"""
 
+    def bind(self, ex, st, n, cond, inc):
+        """STRUCTURAL binding: the cursor and the difference variable are read off the loop condition (`i >= 0 && !cmp`,
+        `cmp == 0 && i > 0`, ...), so renamed locals and the pre-/post-decrement shape of the loop do not matter.
+        `delta` is 0 when the cursor is the next index to examine (examined: > i) and 1 when it is one above it (>= i)."""
+        b = _DigitLoop()
+        found = {}
+
+        def strip(x):
+            while x.get("kind") in ("ParenExpr", "ImplicitCastExpr", "CStyleCastExpr"):
+                x = x["inner"][0]
+            return x
+
+        def walk(x):
+            x = strip(x)
+            k = x.get("kind")
+            if k == "BinaryOperator" and x.get("opcode") in ("&&",):
+                walk(x["inner"][0])
+                walk(x["inner"][1])
+            elif k == "BinaryOperator" and x.get("opcode") in (">=", ">", "==", "!="):
+                l, r = strip(x["inner"][0]), strip(x["inner"][1])
+                if l.get("kind") == "DeclRefExpr" and r.get("kind") == "IntegerLiteral" and r.get("value") == "0":
+                    if x["opcode"] in (">=", ">"):
+                        found["cursor"], found["delta"] = l["referencedDecl"]["id"], (0 if x["opcode"] == ">=" else 1)
+                    elif x["opcode"] == "==":
+                        found["cmp"] = l["referencedDecl"]["id"]
+            elif k == "UnaryOperator" and x.get("opcode") == "!":
+                s = strip(x["inner"][0])
+                if s.get("kind") == "DeclRefExpr":
+                    found["cmp"] = s["referencedDecl"]["id"]
+        walk(cond)
+        if not {"cursor", "cmp", "delta"} <= set(found):
+            from dv.cfe import StaleContract
+            raise StaleContract("digit loop: cannot read the cursor / difference variables off the loop condition")
+        b.cursor, b.cmp, b.delta = found["cursor"], found["cmp"], found["delta"]
+        return b
+
     def holds(self, ex, st):
-        i = ex.local(st, "i").t
-        cmp_ = ex.local(st, "cmp").t
-        size = ex.local(st, "size").t
+        i = st.vars[self.cursor].t - self.delta          # next index to examine
+        cmp_ = st.vars[self.cmp].t
         a, b = ex.local(st, "op1").off, ex.local(st, "op2").off
+        size = nd(a)                                     # both operands have this many digits on this path
         return [("cursor", And(i >= -1, i <= size - 1)),
                 ("equal_above", If(cmp_ == 0, eq_above(a, b, i),
                                     And(i + 1 < size, eq_above(a, b, i + 1), cmp_ == O.digit(a, i + 1) - O.digit(b, i + 1))))]
 
     def decreases(self, ex, st):
-        return ex.local(st, "i").t + 1
+        return st.vars[self.cursor].t + 1
 
 
 def _native(model, ob=None):
